@@ -43,6 +43,7 @@ type (
 		Body    SExpr
 		Bounded bool // "forall k in [lo, hi) :: body" with constant bounds: expanded
 		Lo, Hi  int64
+		Trig    bool // "forall k trig :: body": use the select terms indexed by k as E-matching patterns
 	}
 	SIte struct{ C, A, B SExpr }
 )
@@ -172,8 +173,13 @@ func (p *specParser) parseExpr() SExpr {
 			}
 			return &SQuant{Forall: fa, Vars: vars, Body: p.parseExpr(), Bounded: true, Lo: li.V, Hi: hi2.V}
 		}
+		trig := false
+		if p.lx.kind == 'i' && p.lx.tok == "trig" {
+			trig = true
+			p.lx.next()
+		}
 		p.expect("::")
-		return &SQuant{Forall: fa, Vars: vars, Body: p.parseExpr()}
+		return &SQuant{Forall: fa, Vars: vars, Body: p.parseExpr(), Trig: trig}
 	}
 	return p.parseIff()
 }
@@ -415,12 +421,14 @@ type FuncContract struct {
 	HasMod    bool
 	NoSweep   bool // do not generate safety obligations (function outside sweep)
 	Implements string // key of a functype contract whose clauses this function inherits
+	Reveal     map[string]bool // opaque predicates expanded in this function
 	Opaque    []string
 	File      string
 	Used      bool
 }
 
 type PredDef struct {
+	Opaque bool
 	Name   string
 	Params []string // names
 	Types  []string // go type strings
@@ -589,6 +597,22 @@ func (c *Contracts) loadFile(path string, pkgName string) error {
 			cur.NoSweep = true
 		case "implements":
 			cur.Implements = rest
+		case "reveal":
+			if cur.Reveal == nil {
+				cur.Reveal = map[string]bool{}
+			}
+			for _, r := range strings.Split(rest, ",") {
+				cur.Reveal[strings.TrimSpace(r)] = true
+			}
+		case "opaque":
+			// opaque pred name(...) = body
+			if !strings.HasPrefix(rest, "pred ") {
+				return fmt.Errorf("%s:%d: opaque must be followed by pred", path, j.line)
+			}
+			if err := c.parsePred(strings.TrimSpace(rest[5:]), pkgName, path, j.line, true); err != nil {
+				return err
+			}
+			cur = nil
 		case "modifies":
 			cur.HasMod = true
 			for _, m := range strings.Split(rest, ",") {
@@ -598,37 +622,9 @@ func (c *Contracts) loadFile(path string, pkgName string) error {
 				}
 			}
 		case "pred":
-			// pred name(a T, b U) = expr
-			eqi := strings.Index(rest, "=")
-			par := strings.Index(rest, "(")
-			cp := strings.Index(rest, ")")
-			if eqi < 0 || par < 0 || cp < 0 || cp > eqi {
-				// find the '=' after the closing paren
-				return fmt.Errorf("%s:%d: bad pred", path, j.line)
+			if err := c.parsePred(rest, pkgName, path, j.line, false); err != nil {
+				return err
 			}
-			name := strings.TrimSpace(rest[:par])
-			pd := &PredDef{Name: name, Pkg: pkgName, Src: strings.TrimSpace(rest[eqi+1:])}
-			for _, prm := range strings.Split(rest[par+1:cp], ",") {
-				prm = strings.TrimSpace(prm)
-				if prm == "" {
-					continue
-				}
-				f := strings.SplitN(prm, " ", 2)
-				if len(f) != 2 {
-					return fmt.Errorf("%s:%d: bad pred param %q", path, j.line, prm)
-				}
-				pd.Params = append(pd.Params, f[0])
-				pd.Types = append(pd.Types, strings.TrimSpace(f[1]))
-			}
-			// '=' index must be after ')': recompute
-			eqi = cp + 1 + strings.Index(rest[cp+1:], "=")
-			pd.Src = strings.TrimSpace(rest[eqi+1:])
-			e, err := parseSpecExpr(pd.Src)
-			if err != nil {
-				return fmt.Errorf("%s:%d: %v", path, j.line, err)
-			}
-			pd.Body = e
-			c.Preds[name] = pd
 			cur = nil
 		case "spec":
 			// spec name(sort, sort) sort [= smt-body using p0 p1 ...]
@@ -674,5 +670,39 @@ func (c *Contracts) loadFile(path string, pkgName string) error {
 			return fmt.Errorf("%s:%d: unknown contract directive %q", path, j.line, word)
 		}
 	}
+	return nil
+}
+
+func (c *Contracts) parsePred(rest, pkgName, path string, line int, opaque bool) error {
+	par := strings.Index(rest, "(")
+	cp := strings.Index(rest, ")")
+	if par < 0 || cp < 0 {
+		return fmt.Errorf("%s:%d: bad pred", path, line)
+	}
+	name := strings.TrimSpace(rest[:par])
+	pd := &PredDef{Name: name, Pkg: pkgName, Opaque: opaque}
+	for _, prm := range strings.Split(rest[par+1:cp], ",") {
+		prm = strings.TrimSpace(prm)
+		if prm == "" {
+			continue
+		}
+		f := strings.SplitN(prm, " ", 2)
+		if len(f) != 2 {
+			return fmt.Errorf("%s:%d: bad pred param %q", path, line, prm)
+		}
+		pd.Params = append(pd.Params, f[0])
+		pd.Types = append(pd.Types, strings.TrimSpace(f[1]))
+	}
+	k := strings.Index(rest[cp+1:], "=")
+	if k < 0 {
+		return fmt.Errorf("%s:%d: pred without body", path, line)
+	}
+	pd.Src = strings.TrimSpace(rest[cp+1+k+1:])
+	e, err := parseSpecExpr(pd.Src)
+	if err != nil {
+		return fmt.Errorf("%s:%d: %v", path, line, err)
+	}
+	pd.Body = e
+	c.Preds[name] = pd
 	return nil
 }
